@@ -120,6 +120,9 @@ def check_zip_alignment(ck: Checker, rule: str, fn: Func, call: ast.Call, src_ar
 
 
 def check(ck: Checker) -> None:
+    from . import round4 as _r4
+
+    _r4.create_dirs_all(ck, "C09.order")
     prog, res = ck.prog, ck.res
     ck.decided = [
         "C09.order: apply() performs delete files < delete dirs < create dirs < create files < chmod (recognised by effect)",
@@ -407,7 +410,15 @@ def _error_rules(ck: Checker) -> None:
         for c in calls_at(n):
             if _is_generic_transfer(cf, c):
                 v = next((k.value for k in c.keywords if k.arg == "on_error"), None)
-                ck.require(v is not None and norm(v) == "onerror" and cf.has_param("onerror"), "C09.errors", cf, n,
+                forwards = v is not None and norm(v) == "onerror" and cf.has_param("onerror")
+                if not forwards and isinstance(v, ast.Name) and v.id in cf.children:
+                    # a local wrapper: it must hand every failure on to the caller's callback
+                    w_ = cf.children[v.id]
+                    gw = ck.cfg(w_)
+                    fw = {x.id for x in gw.nodes.values() for c2 in calls_at(x) if isinstance(c2.func, ast.Name) and c2.func.id == "onerror"}
+                    rw = gw.reach([gw.entry], skip_node=lambda x: x.id in fw, skip_edge=lambda a, l, b: l == "exc")
+                    forwards = bool(fw) and gw.exit not in rw
+                ck.require(forwards, "C09.errors", cf, n,
                            "bulk copy reports per-file failures through the onerror parameter", f"bulk copy is called with on_error={norm(v) if v is not None else None}: failed files are skipped silently",
                            construct=f"{n.text()[:50]} / on_error")
     ap = prog.func("index.checkout", "apply")
